@@ -68,7 +68,8 @@ def window(rng, name=None, minlen=3, maxlen=12, waters=True, strip_h=False, only
         atoms = [(a["name"], np.array([a["x"], a["y"], a["z"]])) for a in r["atoms"]
                  if not (strip_h and a["name"].lstrip("0123456789").startswith("H"))]
         # a cut C-terminus has no OXT; a cut N-terminus may carry the amide H of an NMR model
-        out.append({"resn": r["resn"], "kind": "aa", "atoms": atoms, "src": (name, r["chain"], r["resi"])})
+        out.append({"resn": r["resn"], "kind": "aa", "atoms": atoms, "src": (name, r["chain"], r["resi"]),
+                    "icode": r["icode"]})
     wat = []
     if waters:
         pts = np.array([x for r in out for _, x in r["atoms"]])
